@@ -14,6 +14,7 @@ import Marwood.Lemmas.CompileCorrect2QuoteDemo
 import Marwood.Lemmas.CompileCorrect2Demo
 import Marwood.Lemmas.CompileCorrect2DemoCapture
 import Marwood.Lemmas.CompileCorrect2FailDemo
+import Marwood.Lemmas.CompileCorrect2ConcreteDemo
 /-!
 # C01 — evaluation agrees with the language semantics for core and derived forms
 
@@ -656,8 +657,11 @@ every heap operation and builtin must preserve), the global store, `envPut` on a
 CLOSURE (`closure_ok`: a fresh environment whose captured slots are what `build_closure_environment`
 computes, a fresh closure cell, everything else unchanged), ENTER (`activation_ok`: a fresh environment
 with the arguments from the stack and the captured pointers copied), and the behaviour of primitive
-procedures (`call`). The laws are PROVED for the small heap of `Lemmas/CompileCorrect2Toy.lean` (`Toy.laws`),
-and every hypothesis is discharged for `((lambda (x) (if x 1 2)) #t)` (`demo_closure_runs`), for the tail
+procedures (`call`). On the CONCRETE heap model (`Vm/ConcreteHeap.lean`: free list, chunk growth, CLOSURE and
+ENTER as in run.rs) every law except `call` is a THEOREM (`laws2_concrete` below; invariant: `CInv`, free cells
+are `Undefined`, the named global slots exist), and every hypothesis of the main theorem is discharged there
+for `((lambda (x) (if x 1 2)) #t)` (`demo_concrete_closure_runs`). All laws including `call` (vacuously: no
+primitive) are proved for the small heap of `Lemmas/CompileCorrect2Toy.lean` (`Toy.laws`), and every hypothesis is discharged for `((lambda (x) (if x 1 2)) #t)` (`demo_closure_runs`), for the tail
 call `((lambda (f) (f #t)) (lambda (x) (if x 1 2)))` (`demo_tailcall_runs`) and for a captured variable,
 `((lambda (x) ((lambda (y) x) 2)) 1)` (`demo_capture_runs`).
 
@@ -691,6 +695,29 @@ theorem compile_correct_stage2_partial {H : Type} {ops : HeapOps H} {D : RepData
     (hfr : tail = true → FrameAt s.stack s.bp fr) :
     ∃ W' s', W.le W' ∧ Out2 D W' s code.length σ σ' w tail fr s' :=
   compileExpr_correct2 L f cst c base tail e cst' code ρ hf hcx hcomp hpre n σ w σ' hev W s fr hc hip hi her hw hfr
+
+open Marwood.Lemmas.CompileCorrect Marwood.Lemmas.CompileCorrect2 Marwood.Lemmas.CompileCorrect2.Conc
+  Marwood.Vm.Concrete in
+/-- **`Laws2` on the concrete heap model.** For `concreteOps ext` (the collector's heap model with the real
+    allocator: free list head first, growth by chunks; `build_closure_environment` / `build_lexical_environment`
+    as in run.rs) with the representation `cD` (stage-1 `atomVR` closed under heap pairs; environment-map
+    sources read off the lambda cell; invariant `CInv ∧ FreeInv ∧` named slots exist) every law of stage 2 is
+    proved except the behaviour of the builtin procedures, which is the hypothesis `hcall` — the builtins are
+    parameters of the concrete machine too. In particular an allocation never disturbs a represented object
+    although addresses are reused. -/
+theorem laws2_concrete {ext : ExtOps} {E : AtomEnc} {named : Text → Prop} {slot : Text → Nat} {LM : Nat → Nat}
+    {final : List LambdaM} {setG : Text → Prop}
+    (hinj : ∀ a b, named a → named b → slot a = slot b → a = b)
+    (hcall : ∀ n W h (σ : Spec.Eval.St) vf p vs ws w (σ' : Spec.Eval.St),
+      Inv2 (cD ext E named slot LM final setG) W h σ →
+      (cD ext E named slot LM final setG).VR h σ.store vf (.prim p) →
+      All2 (VR2 (cD ext E named slot LM final setG) W h σ.store) vs ws → (evalN n).apply (.prim p) ws σ = .ok w σ' →
+      ∃ id h' r, (concreteOps ext).callee h vf = .builtin id ∧ (concreteOps ext).builtinKind h id = .generic ∧
+        builtinResult (concreteOps ext) h id vs.reverse = .ok (h', r) ∧
+        VR2 (cD ext E named slot LM final setG) W h' σ'.store r w ∧ Inv2 (cD ext E named slot LM final setG) W h' σ' ∧
+        Ext2 (cD ext E named slot LM final setG) h σ.store h' σ'.store) :
+    Laws2 (cD ext E named slot LM final setG) :=
+  concrete_laws2 hinj hcall
 
 open Marwood.Lemmas.CompileCorrect Marwood.Lemmas.CompileCorrect2 in
 /-- **The call of a closure.** From the state `CALL`/`TCALL` leaves (operands, their number, `%ep`, the return
